@@ -155,13 +155,21 @@ class Scipy(AbstractIntegrator):
         integ.set_initial_value(self.y0, self.t0)
 
         t = self.t0 + step_size
+        t_reached = self.t0
         y1 = np.array(self.y0, dtype=float)
         for _ in range(max_steps):
             # The integrator hands out its internal state array, which it overwrites
             # on the next call, so the comparison needs a copy
             y2 = np.array(integ.integrate(t), dtype=float)
             if not integ.successful():
+                # The solver may merely have used up its step budget for one call
+                # before reaching t; then it can be called again. Anything that stops
+                # it from making progress is a failure
+                if integ.t > t_reached and np.all(np.isfinite(y2)):
+                    t_reached = integ.t
+                    continue
                 return Result(IntegrationFailure())
+            t_reached = t
             diff = (y2 - y1) / y1 if rel_norm else y2 - y1
             if np.linalg.norm(diff, ord=2) < tolerance:
                 self.t0 = t
